@@ -20,12 +20,13 @@
      HAbandoned    the AbandonOperator instruction ran: poll_finalize_execute was called (same critical
                    section as a normal finalize: remaining_probers -= 1; if 0 drain_ready, wake drainers)
                    but the partition never drains
-     HLost         the pending AbandonOperator was dropped because a SECOND operator further down
-                   answered Exhausted before it ran (the stack is cleared and next_to_finalize was
-                   already advanced: C04_stack_exhausted_finalizes_all_upstream_refuted); this is also
-                   exactly the behaviour of the stack before commit 131551599
+     HLost         (previous stack versions only) the join never hears that the partition is done:
+                   before commit 131551599 every early exhaustion ended here; between 131551599 and
+                   c83fc4e4d a pending AbandonOperator was dropped when a SECOND operator further down
+                   answered Exhausted before it ran.  With c83fc4e4d the cleared AbandonOperator is
+                   re-created (C04_stack_exhausted_finalizes_all_upstream): rule h_abandon_again.
    `ab`: early exhaustion can happen (a LIMIT / EXISTS above the join);
-   `lose`: a pending abandon can be lost (two exhausting operators above the join). *)
+   `lose`: a pending abandon can be lost (previous stack versions; false for the current source). *)
 From Coq Require Import List Arith Bool.
 From GV Require Import lib.Lts.
 Import ListNotations.
@@ -99,7 +100,12 @@ Inductive hstep (ab lose : bool) : hst -> hst -> Prop :=
 | h_abandon_fin_err i s :
     nth_error (hps s) i = Some HAbandoning -> rem_prob s = 0 ->
     hstep ab lose s {| hps := upd (hps s) i HErr; sready := sready s; dready := dready s; rem_prob := rem_prob s |}
-(* the pending AbandonOperator is dropped by a second Exhausted further down *)
+(* nested exhaustion (c83fc4e4d): a second operator further down answers Exhausted while the
+   AbandonOperator is pending: the stack is cleared and the instruction re-created: nothing changes *)
+| h_abandon_again i s :
+    ab = true -> nth_error (hps s) i = Some HAbandoning ->
+    hstep ab lose s {| hps := upd (hps s) i HAbandoning; sready := sready s; dready := dready s; rem_prob := rem_prob s |}
+(* previous stack versions: the pending AbandonOperator is dropped by a second Exhausted further down *)
 | h_abandon_lost i s :
     lose = true -> nth_error (hps s) i = Some HAbandoning ->
     hstep ab lose s {| hps := upd (hps s) i HLost; sready := sready s; dready := dready s; rem_prob := rem_prob s |}.
